@@ -69,10 +69,10 @@ Structural == {"w", "sp", "lf", "-", "?", ":", ",", "[", "]", "{", "}", "#"}
 FocusTable == [
   struct   |-> [p |-> <<>>, n |-> 4, m |-> 5, a |-> Structural],
   struct2  |-> [p |-> <<>>, n |-> 1, m |-> 5, a |-> {"w", "sp", "lf", "-", ":", "[", "]", ","}],
-  block    |-> [p |-> <<>>, n |-> 5, m |-> 6, a |-> {"w", "sp", "lf", "-", ":", "?"}],
+  block    |-> [p |-> <<>>, n |-> 5, m |-> 7, a |-> {"w", "sp", "lf", "-", ":", "?"}],
   indic    |-> [p |-> <<>>, n |-> 3, m |-> 4, a |-> {"&", "*", "!", "|", ">", "'", "dq", "%", "@", "bt", "w", "lf", ".", ":", "sp", "-"}],
-  breaks   |-> [p |-> <<>>, n |-> 3, m |-> 4, a |-> {"w", "sp", "lf", "cr", "nel", "ls", "ps", "bom", "np", "tab", ":", "-", "#"}],
-  docs     |-> [p |-> <<>>, n |-> 5, m |-> 7, a |-> {"-", ".", "w", "lf", "sp"}],
+  breaks   |-> [p |-> <<>>, n |-> 4, m |-> 4, a |-> {"w", "sp", "lf", "cr", "nel", "ls", "ps", "bom", "np", "tab", ":", "-", "#"}],
+  docs     |-> [p |-> <<>>, n |-> 6, m |-> 7, a |-> {"-", ".", "w", "lf", "sp"}],
   dquote   |-> [p |-> <<"dq">>, n |-> 4, m |-> 5, a |-> {"w", "sp", "lf", "dq", "bs", "n", "-", "tab"}],
   escape   |-> [p |-> <<"dq", "bs">>, n |-> 2, m |-> 3,
                 a |-> {"xc", "uc", "Uc", "0", "1", "h", "a", "X2", "U4", "U4s", "U8", "U8s", "U8big", "U8huge", "dq", "w", "lf",
@@ -85,7 +85,7 @@ FocusTable == [
   tag      |-> [p |-> <<"!">>, n |-> 3, m |-> 4,
                 a |-> {"w", "!", "sp", "lf", "%", "P1", "P2a", "P2b", "Pbad", "<", ">", "tab", ",", "1", "a"}],
   verbatim |-> [p |-> <<"!", "<">>, n |-> 3, m |-> 4, a |-> {"w", "!", "sp", ">", "P1", "P2a", "P2b", "Pbad", "up", "lf", "{", "u"}],
-  literal  |-> [p |-> <<"|">>, n |-> 4, m |-> 5, a |-> {"w", "sp", "lf", "-", "+", "1", "nd"}],
+  literal  |-> [p |-> <<"|">>, n |-> 5, m |-> 6, a |-> {"w", "sp", "lf", "-", "+", "1", "nd"}],
   folded   |-> [p |-> <<">">>, n |-> 3, m |-> 5, a |-> {"w", "sp", "lf", "2", "0", "#", "tab", "cr", "ls"}],
   seqlit   |-> [p |-> <<"-", "sp", "|">>, n |-> 4, m |-> 5, a |-> {"w", "sp", "lf", "1", "nel", "-", ":"}],
   mapblock |-> [p |-> <<"w", ":", "lf">>, n |-> 4, m |-> 5, a |-> {"w", "sp", "lf", ">", "|", "-", ":", "3"}],
@@ -96,7 +96,7 @@ FocusTable == [
   cont     |-> [p |-> <<"w", "lf", "sp">>, n |-> 4, m |-> 5, a |-> {"-", ".", "w", "sp", "lf", ":", "#"}],
   dstruct  |-> [p |-> <<>>, n |-> 3, m |-> 4, a |-> Structural],
   dindic   |-> [p |-> <<>>, n |-> 3, m |-> 4, a |-> {"&", "*", "!", "|", ">", "'", "dq", "%", "@", "w", "lf", ".", "sp"}],
-  pstruct  |-> [p |-> <<>>, n |-> 3, m |-> 4, a |-> Structural],
+  pstruct  |-> [p |-> <<>>, n |-> 4, m |-> 5, a |-> Structural],
   pstruct8 |-> [p |-> <<>>, n |-> 4, m |-> 5, a |-> {"w", "sp", "lf", "-", ":", "[", "]", ","}],
   pblock   |-> [p |-> <<>>, n |-> 4, m |-> 6, a |-> {"w", "sp", "lf", "-", ":", "?"}],
   pflow    |-> [p |-> <<"[">>, n |-> 3, m |-> 4, a |-> {"w", ":", ",", "?", "]", "[", "{", "}", "lf", "sp"}],
@@ -110,8 +110,8 @@ FocusTable == [
   ptagdoc  |-> [p |-> <<"%", "TAG", "sp", "!", "w", "!", "sp", "w", ":", "lf", "-", "-", "-", "sp">>, n |-> 4, m |-> 5,
                 a |-> {"!", "w", ":", "sp", "lf", "1"}],
   ptag     |-> [p |-> <<"!">>, n |-> 3, m |-> 4, a |-> {"w", "!", "sp", "lf", "P1", "P2a", "P2b", "<", ">", ":", "1", ".", ","}],
-  pliteral |-> [p |-> <<"|">>, n |-> 3, m |-> 5, a |-> {"w", "sp", "lf", "-", "+", "1", "#"}],
-  pfolded  |-> [p |-> <<">">>, n |-> 3, m |-> 5, a |-> {"w", "sp", "lf", "2", "-", "cr", "ls", "nel"}],
+  pliteral |-> [p |-> <<"|">>, n |-> 3, m |-> 4, a |-> {"w", "sp", "lf", "-", "+", "1", "#"}],
+  pfolded  |-> [p |-> <<">">>, n |-> 3, m |-> 4, a |-> {"w", "sp", "lf", "2", "-", "cr", "ls", "nel"}],
   pseqlit  |-> [p |-> <<"-", "sp", "|">>, n |-> 3, m |-> 4, a |-> {"w", "sp", "lf", "1", "nel", "-", ":"}],
   pmapblock |-> [p |-> <<"w", ":", "lf">>, n |-> 3, m |-> 4, a |-> {"w", "sp", "lf", ">", "|", "-", ":", "3"}],
   panchors |-> [p |-> <<>>, n |-> 3, m |-> 4, a |-> {"&", "*", "w", "sp", "lf", ":", "-", "1", ",", "[", "]"}],
@@ -726,7 +726,8 @@ Which(r) ==
 (* no-vacuity check counts actions from it.                                *)
 (***************************************************************************)
 Tick(r) == [r EXCEPT !.rd.wk = @ + 1]
-Apply(r, nextpc, name) ==
+\* (\E over a singleton: TLC evaluates the new scanner record once instead of once per primed variable)
+Apply(r0, nextpc, name) == \E r \in {r0} :
   /\ rd' = [r.rd EXCEPT !.wk = @ + 1] /\ done' = r.done /\ flow' = r.flow /\ toks' = r.toks /\ taken' = r.taken
   /\ indent' = r.indent /\ indents' = r.indents /\ ask' = r.ask /\ keys' = r.keys /\ res' = r.res /\ err' = r.err
   /\ pc' = IF r.res = "run" THEN nextpc ELSE "end"
@@ -828,7 +829,7 @@ Run ==
   /\ IF NonPrintables # {}
      THEN /\ res' = "reader_error" /\ err' = ReaderError
           /\ UNCHANGED <<rd, done, flow, toks, taken, indent, indents, ask, keys, out, mon, path>>
-     ELSE LET z == RunAll(R, <<>>, mon, <<>>) IN
+     ELSE \E z \in {RunAll(R, <<>>, mon, <<>>)} :
           /\ rd' = z.r.rd /\ done' = z.r.done /\ flow' = z.r.flow /\ toks' = z.r.toks /\ taken' = z.r.taken
           /\ indent' = z.r.indent /\ indents' = z.r.indents /\ ask' = z.r.ask /\ keys' = z.r.keys
           /\ res' = z.r.res /\ err' = z.r.err /\ out' = z.out /\ mon' = z.mon /\ path' = z.path
@@ -867,7 +868,8 @@ H_YamlErrorOnly == res # "crash"
 \* the scan terminates: work is bounded linearly in the length of the input (no hang in the model)
 H_Terminates == rd.wk <= 12 * (Len(inp) + 2)
 \* marks of tokens and of errors lie inside the input and tell the truth about line and column
-H_TokenMarks == pc = "end" => \A j \in DOMAIN out : PosOk(out[j].s) /\ PosOk(out[j].e) /\ out[j].s.i <= out[j].e.i
+TokenMarksOk == \A j \in DOMAIN out : PosOk(out[j].s) /\ PosOk(out[j].e) /\ out[j].s.i <= out[j].e.i
+H_TokenMarks == pc = "end" => TokenMarksOk
 H_ErrorMarks == /\ res = "error" => (PosOk(err.p) /\ (err.c # NoMark => PosOk(err.c)))
                 /\ res = "reader_error" => (0 <= err.p.i /\ err.p.i <= TotalWidth)
 \* the delivered token stream is a word (a prefix of one, while running or failed) of the scan-level grammar
